@@ -243,7 +243,7 @@ func cmdWorker(args []string) int {
 			sr.Stats.merge(res.Stats)
 		}
 		for k, v := range res.Obs {
-			sr.Obs[k] += v
+			mergeObs(sr.Obs, k, v)
 		}
 		if res.NonTrivial && !seen[res.Hash] {
 			seen[res.Hash] = true
@@ -413,7 +413,7 @@ func cmdRun(args []string) int {
 		evals += sr.Evaluations
 		stats.merge(sr.Stats)
 		for k, v := range sr.Obs {
-			obs[k] += v
+			mergeObs(obs, k, v)
 		}
 		for _, h := range sr.NonTrivial {
 			nontrivial[h] = true
@@ -511,6 +511,17 @@ func cmdRun(args []string) int {
 		_ = os.RemoveAll(dir)
 	}
 	return exit
+}
+
+// mergeObs adds counters; keys starting with "max-" or "max_" keep the maximum instead.
+func mergeObs(dst map[string]int, k string, v int) {
+	if strings.HasPrefix(k, "max-") || strings.HasPrefix(k, "max_") {
+		if v > dst[k] {
+			dst[k] = v
+		}
+		return
+	}
+	dst[k] += v
 }
 
 func statsSummary(s *Stats, obs map[string]int) map[string]int {
